@@ -98,6 +98,12 @@ def run(ctx):
         ss = [gen.series_nd(rng, m, nd) for m in lens]
         kw = gen.rand_settings(rng, min(lens), min(lens), with_mld=False)
         kw.pop("psi", None)
+        x_ = rng.random()
+        if x_ < 0.25:
+            kw["psi"] = rng.randint(0, min(lens) - 1)
+        elif x_ < 0.6 and min(lens) >= 2:
+            m_ = min(lens) - 1
+            kw["psi"] = (rng.randint(0, m_), rng.randint(0, m_), rng.randint(0, m_), rng.randint(0, m_))
         with monitors.quiet():
             table = [[float(dtw_ndim.distance(np.array(ss[a]), np.array(ss[b]), **kw)) for b in range(k)] for a in range(k)]
         conts = [("list2d", [np.array(s) for s in ss], (False, True)),
